@@ -885,7 +885,7 @@ class Gen:
                     lbrace = loops[k - 1][1]
                     pos = (toks[lbrace].end if h["where"] == "loop" else toks[pair[lbrace]].start) - bb0
                 else:
-                    pat = h["arg"].replace('\\"', '"')
+                    pat = h["arg"].replace('\\"', '"').replace("\\n", "\n")
                     cnt = body.count(pat)
                     if cnt != 1:
                         raise ExtractError("lost anchor: hint anchor %r occurs %d times in %s" % (pat, cnt, qual))
